@@ -128,7 +128,7 @@ def run_fide(ctx):
             holder = {}
 
             def read_file():
-                holder["fm"] = FeatureIDEReader(path).transform()
+                holder["fm"] = fmt.read_twice(FeatureIDEReader, path)
                 return holder["fm"]
             iread = sx.dumps(fmt.result_pfm(read_file))
             r.record("writer-output", rreq, iread, mread)
@@ -274,7 +274,7 @@ def run_fide_third_party(ctx):
             holder = {}
 
             def read_file():
-                holder["fm"] = FeatureIDEReader(path).transform()
+                holder["fm"] = fmt.read_twice(FeatureIDEReader, path)
                 return holder["fm"]
             iread = sx.dumps(fmt.result_pfm(read_file))
             r.record("emitter", rreq, iread, mread)
